@@ -443,11 +443,23 @@ Case gen_from_ops(const char *prop, const GenCtx &ctx, int viewpct) {
   const Op *o = g::wpick(w);
   Case c;
   c.sets("prop", prop);
-  o->gen(ctx, c, viewpct);
+  o->gen(ctx, c, o->views_ok ? viewpct : 0);
+  even_offsets_for_building_blocks(c);
   return c;
 }
 
-static Case gen_C08(const GenCtx &ctx) { return gen_from_ops("C08", ctx, 0); }
+// The *_russian building blocks are only ever reached through wrappers that hand them operands on an even word
+// offset (_mzd_ple copies into an aligned matrix, mzd_trtri_upper keeps its windows on even words); an odd word
+// offset is outside their domain, so it is not generated for them.
+void even_offsets_for_building_blocks(Case &c) {
+  if (c.s("op", "").find("russian") == std::string::npos) return;
+  for (auto &kv : c.kv)
+    if (kv.first.size() > 3 && kv.first.compare(kv.first.size() - 3, 3, ".lw") == 0)
+      kv.second = std::to_string(atoi(kv.second.c_str()) & ~1);
+}
+
+// the semantic checks use owned operands for most cases and windows for a share of them (windows in depth: C09)
+static Case gen_C08(const GenCtx &ctx) { return gen_from_ops("C08", ctx, 20); }
 
 static std::vector<Case> enum_C08(const GenCtx &ctx) {
   std::vector<Case> v;
